@@ -6,3 +6,7 @@ import RaftWal.Props.C16
 #print axioms RaftWal.C16.written_sum_is_running_sum
 #print axioms RaftWal.C16.no_false_alarm
 #print axioms RaftWal.C16.range_mismatch_not_corruption
+#print axioms RaftWal.C16.leader_checkpoint_is_chain
+#print axioms RaftWal.C16.cluster_no_false_alarm
+#print axioms RaftWal.C16.cluster_range_mismatch
+#print axioms RaftWal.C16.cluster_nonvacuous
